@@ -53,6 +53,9 @@ func (h Handler) HandleMessage(p stanza.Message, r xmlstream.TokenReadEncoder) e
 			if err != nil {
 				return err
 			}
+			if h.F == nil {
+				return nil
+			}
 			return h.F(p, start.Name.Local == "sent", xmlstream.Inner(child))
 		}
 	}
